@@ -49,7 +49,7 @@ def build_ctx(repo=None, consts=None):
 
 def fresh_param(X, st, name, t):
     base, arg, opt = parse_type(t)
-    none = fresh(name + "?", B) if opt else None
+    none = fresh(name + "_isnone", B) if opt else None
     if base == "int":
         return Num(fresh(name), none=none)
     if base == "real":
@@ -177,11 +177,36 @@ def external(ob, timeout=12):
 
 
 def verify(qual, repo=None, ctx=None, bound=None, second_solver=False, fast=False):
+    """verifies `qual`; a contract with `cases` is verified once per case and the results are merged"""
+    try:
+        ctx = ctx or build_ctx(repo)
+    except Exception as e:
+        return {"qual": qual, "obligations": [], "status": "error", "error": repr(e), "wall_s": 0, "notes": []}
+    C = ctx.contracts.get(qual)
+    if C is None or not C.cases:
+        return _verify(qual, repo, ctx, bound, second_solver, fast, None)
+    merged = None
+    rank = {"ok": 0, "undecided": 1, "refuted": 2, "error": 3}
+    for ci, case in enumerate(list(C.cases) + ["__exhaustive__"]):
+        r = _verify(qual, repo, ctx, bound, second_solver, fast, (ci, case))
+        if merged is None:
+            merged = r
+        else:
+            merged["obligations"] += r["obligations"]
+            merged["wall_s"] = round(merged["wall_s"] + r["wall_s"], 3)
+            if rank[r["status"]] > rank[merged["status"]]:
+                merged["status"] = r["status"]
+                merged["error"] = r.get("error")
+            for k in ("notes", "inlined", "callee_contracts"):
+                merged[k] = sorted(set(merged.get(k, [])) | set(r.get(k, [])))
+    return merged
+
+
+def _verify(qual, repo, ctx, bound, second_solver, fast, case):
     """returns dict(qual, status, obligations=[...], ...).  status: ok | refuted | undecided | error"""
     t_start = time.time()
     out = {"qual": qual, "obligations": [], "status": "ok", "notes": [], "inlined": [], "callee_contracts": [], "bound": bound}
     try:
-        ctx = ctx or build_ctx(repo)
         C = ctx.contracts.get(qual)
         if C is None:
             raise VCError(f"no contract for {qual}")
@@ -220,6 +245,20 @@ def verify(qual, repo=None, ctx=None, bound=None, second_solver=False, fast=Fals
         st.meta["old_heap"], st.meta["old_env"] = entry_heap, entry_env
         for r in C.requires:
             st.pc.append(X.truth(X.spec_ev(r, st), st))
+        tag = ""
+        if case is not None and case[1] == "__exhaustive__":
+            X.cur_line = None
+            g = z3.Or([X.truth(X.spec_ev(c, st), st) for c in C.cases])
+            X.oblige("cases-exhaustive", st, g, "cases", text=" or ".join(C.cases))
+            exits = []
+            res, dt, model, backend = solve(X.obls[0])
+            out["obligations"].append({"name": f"{qual}::cases-exhaustive", "kind": "cases", "line": None, "result": res, "time_s": round(dt, 4), "backend": backend, "text": " or ".join(C.cases)})
+            out["status"] = "ok" if res == "unsat" else ("refuted" if res == "sat" else "undecided")
+            out["wall_s"] = round(time.time() - t_start, 3)
+            return out
+        if case is not None:
+            st.pc.append(X.truth(X.spec_ev(case[1], st), st))
+            tag = f"::case{case[0]}"
         for lname, inst in C.lemmas:
             if lname not in ctx.lemmas:
                 raise VCError(f"contract uses unknown lemma {lname}")
@@ -310,7 +349,7 @@ def verify(qual, repo=None, ctx=None, bound=None, second_solver=False, fast=Fals
                 elif any(a == "sat" for _, a in others):
                     res = "unknown"      # solvers disagree: undecided
             n_obl += 1
-            rec = {"name": f"{qual}::{ob.name}", "kind": ob.kind, "line": ob.line, "result": res, "time_s": round(dt, 4), "backend": backend, "text": ob.text}
+            rec = {"name": f"{qual}::{ob.name}{tag}", "kind": ob.kind, "line": ob.line, "result": res, "time_s": round(dt, 4), "backend": backend, "text": ob.text}
             if others:
                 rec["second"] = others
             if res == "sat":
